@@ -236,6 +236,10 @@ func (i *Interpreter) ProcessReturnStatement(stmt *ast.ReturnStatement) State {
 	if stmt.ReturnExpression == nil {
 		return BARE_RETURN
 	}
+	// The state name must not include comments around the identifier
+	if ident, ok := stmt.ReturnExpression.(*ast.Ident); ok {
+		return State(ident.Value)
+	}
 	return State(stmt.ReturnExpression.String())
 }
 
